@@ -24,6 +24,36 @@ type testUser struct {
 	role     string // permission the user was created with on dbOwn (SysAdmin: the built-in administrator)
 	cur      string // current permission on dbOwn
 	active   bool
+	other    string // flows: permission the user was created with on dbOther ("" = none)
+	curo     string // flows: current permission on dbOther
+}
+
+func (u *testUser) curoOr() string {
+	if u.role == "SysAdmin" {
+		return "SysAdmin"
+	}
+	if u.curo == "" {
+		return "none"
+	}
+	return u.curo
+}
+
+// setUserPermissionOn: the administrator changes the user's permission on one of the two fixture databases.
+func (w *world) setUserPermissionOn(u *testUser, class, p string) error {
+	db := dbOfClass(class)
+	req := &schema.ChangePermissionRequest{Action: schema.PermissionAction_GRANT, Username: u.name, Database: db, Permission: permCode[p]}
+	if p == "none" {
+		req = &schema.ChangePermissionRequest{Action: schema.PermissionAction_REVOKE, Username: u.name, Database: db, Permission: 1}
+	}
+	err := w.adminCall(dbDef, "ChangePermission", req, &emptypb.Empty{})
+	if err == nil {
+		if class == "own" {
+			u.cur = p
+		} else {
+			u.curo = p
+		}
+	}
+	return err
 }
 
 var permCode = map[string]uint32{"R": 1, "RW": 2, "Admin": 254}
